@@ -29,10 +29,10 @@ type SpecEnv struct {
 	PostParams map[string]*smt.Term
 	Pkg        *types.Package
 	Fn         *ssa.Function
-	CalleeView bool // evaluating a callee's contract at a call site: locals of the caller are not visible
+	CalleeView bool            // evaluating a callee's contract at a call site: locals of the caller are not visible
 	LoopHeader *ssa.BasicBlock // set while evaluating a loop invariant
-	AllocPre   *smt.Term        // allocation set at the time of the call (callee contracts)
-	DefHeap    *defHeap         // set while building the definition of a recursive spec function
+	AllocPre   *smt.Term       // allocation set at the time of the call (callee contracts)
+	DefHeap    *defHeap        // set while building the definition of a recursive spec function
 	macroDepth int
 }
 
@@ -893,7 +893,7 @@ func (x *Exec) resolveTargets(env *SpecEnv, a spec.Expr) (ts []Target, all bool)
 	E := x.E
 	switch a := a.(type) {
 	case *spec.Ident:
-		if a.Name == "everything" {
+		if a.Name == "everything" || a.Name == "unrestricted" {
 			return nil, true
 		}
 		if gv, ok := E.GhostV[a.Name]; ok {
